@@ -323,7 +323,7 @@ func TestC08History(t *testing.T) {
 
 // TestC08Repeat: every program of the grid evaluated three times around unrelated work.
 func TestC08Repeat(t *testing.T) {
-	run := h.Begin("C08", "repeat", "bounded-exhaustive: every builtin applied to 1-2 representative arguments, every operator on pairs of representative names, and the must-error templates of C03, each as a one-program history [eval, unrelated, analyse, eval, parse, malformed, eval] over the three data variants; same oracle; non-trivial: all")
+	run := h.Begin("C08", "repeat", "bounded-exhaustive: every builtin applied to 1-2 representative arguments, every operator on pairs of representative names, calls of undefined names spelt close to every builtin, map-typed host parameters with several unconvertible entries, and the must-error templates of C03, each as a one-program history [eval, unrelated, analyse, eval, parse, malformed, eval] over the three data variants; same oracle; non-trivial: all")
 	defer run.End(t)
 	var progs []string
 	for _, b := range builtinNames() {
@@ -333,6 +333,18 @@ func TestC08Repeat(t *testing.T) {
 		for _, a := range []string{"s", "1.5", "t", "arr", "m"} {
 			progs = append(progs, b+"("+a+")", b+"("+a+", 2)", b+"('a', "+a+", 1)")
 		}
+	}
+	// calls of names that are not defined but lie close to one or several builtins (a truncated, extended or
+	// altered spelling): the error must be the same every time
+	for _, b := range builtinNames() {
+		for _, miss := range []string{b[:len(b)-1], b[1:], b + "s", "x" + b[1:], strings.ToUpper(b[:1]) + b[1:]} {
+			if _, isBuiltin := builtinArity[miss]; !isBuiltin && len(miss) >= 2 {
+				progs = append(progs, miss+"(s, 'x', 5)", miss+"()")
+			}
+		}
+	}
+	for _, miss := range []string{"pad", "dat", "mix", "lef", "ma", "mi", "roun", "to", "Date", "trimm", "lowerr", "f", "ff"} {
+		progs = append(progs, miss+"(s, '0', 5)", "[1, "+miss+"(1)]", "m."+miss+"(1)")
 	}
 	for _, a := range []string{"m", "mi", "ms", "mik", "st", "arr", "n"} {
 		// map-typed parameter: a map with several unconvertible entries
